@@ -26,7 +26,7 @@ from vlib.verdict import h64
 
 LEVEL = 'exploration'
 SHARDS = {'quick': 4, 'thorough': 16}
-BUDGET = {'quick': 15, 'thorough': 150}
+BUDGET = {'quick': 15, 'thorough': 200}
 
 K_ORPHAN = 'rejected-add-leaves-orphan-nodes'
 K_LITSRC = 'literal-segment-unescaped-in-finder-source'
@@ -78,9 +78,29 @@ def multi_misuse_index(template):
         if any((f.group(2) or '') in ('path', 'rest') for f in fields):
             if k < len(segs) - 1 or not whole:
                 return k
-        if not whole and '\\' in raw:
+        if not whole and '\\' in raw and _segment_refused_alone(raw):
             return k
     return None
+
+
+_alone_cache = {}
+
+
+def _segment_refused_alone(raw):
+    """Does the real router refuse the one-segment template '/<raw>' with an internal error type?
+    (a multi-field segment whose backslash makes the router's own pattern invalid)"""
+    r = _alone_cache.get(raw)
+    if r is None:
+        probe = CompiledRouter()
+        try:
+            probe.add_route('/' + raw, Res('probe'))
+            r = False
+        except UnacceptableRouteError:
+            r = False
+        except Exception:  # noqa
+            r = True
+        _alone_cache[raw] = r
+    return r
 
 
 def has_hostile_literal(template):
@@ -106,6 +126,8 @@ class World:
         self.ops = []                 # ['add', template, compile, outcome, orphan_candidate] | ['find', path]
         self.n_rejected = 0
         self.dead = None              # reason why this world cannot be judged further
+        self.crashed = None           # add_route(compile=True) raised something that is not a refusal: the
+        #                               tree may have been changed; one more lookup batch, then stop
         self.sig = None
 
     def add(self, rec, template, compile=False, intent=None):
@@ -147,8 +169,10 @@ class World:
             rec.count('reject.' + (intent or 'unplanned'))
             if op[3] != 'rej':
                 rec.count('reject.type.' + op[3][4:])
-            if self.n_rejected:
-                monitor_rejection_independent(rec, self, template, compile)
+        if op[3] != 'rej' and compile:
+            self.crashed = op[3]
+        if rec is not None and self.n_rejected and self.crashed is None:
+            monitor_rejection_independent(rec, self, template, compile)
         self.n_rejected += 1
         return op[3]
 
@@ -166,6 +190,7 @@ def rebuild(ops, skip=()):
         if op[0] == 'add':
             w.add(None, op[1], op[2])
         else:
+            w.ops.append(list(op))
             try:
                 w.router.find(op[1])
             except Exception:  # noqa
@@ -238,20 +263,32 @@ def classify(w, path, kind):
             alt = w.model.find(variant)
             if got is not None and alt is not None and got[0] is alt[0] and norm_params(got[2]) == norm_params(alt[2]):
                 return K_NEWLINE
-            if got is None and alt is None:
-                return K_NEWLINE
-    cands = [
-        (K_LITSRC, {i for i, o in enumerate(ops) if o[0] == 'add' and has_hostile_literal(o[1])}),
-        (K_CXBACKSLASH, {i for i, o in enumerate(ops) if o[0] == 'add' and o[3] == 'ok' and has_backslash_complex(o[1])}),
-        (K_ORPHAN, {i for i, o in enumerate(ops) if o[0] == 'add' and o[3] != 'ok' and o[4]}),
-    ]
-    for key, idxs in cands:
-        if not idxs:
-            continue
-        w2 = rebuild(ops, skip=idxs)
+    for key, idxs in candidates(ops):
+        w2 = ablate(ops, idxs)
         if w2.dead is None and judge(w2, path) is None:
             return key
     return None
+
+
+def ablate(ops, idxs):
+    """The world without the adds `idxs`; a refused add that only in that smaller world would leave
+    orphan nodes behind (its prefix was created by a removed add) is removed too."""
+    w2 = rebuild(ops, skip=idxs)
+    kept = [i for i in range(len(ops)) if i not in idxs]
+    more = {kept[j] for j, o in enumerate(w2.ops) if o[0] == 'add' and o[3] != 'ok' and o[4]}
+    if more:
+        w2 = rebuild(ops, skip=set(idxs) | more)
+    return w2
+
+
+def candidates(ops):
+    """(key, indices of the adds that could trigger that recorded finding) - non-empty sets only."""
+    cands = [
+        (K_LITSRC, {i for i, o in enumerate(ops) if o[0] == 'add' and has_hostile_literal(o[1])}),
+        (K_CXBACKSLASH, {i for i, o in enumerate(ops) if o[0] == 'add' and has_backslash_complex(o[1])}),
+        (K_ORPHAN, {i for i, o in enumerate(ops) if o[0] == 'add' and o[3] != 'ok' and o[4]}),
+    ]
+    return [(k, s) for k, s in cands if s]
 
 
 def shrink(ops, path, kind, budget=80):
@@ -272,10 +309,14 @@ def report(rec, w, path, verdict):
     kind, got, want = verdict
     key = classify(w, path, kind)
     ops = w.ops
+    wit = {'path': path, 'got': got, 'want': want}
     if key is None or key not in rec.known_keys:
         if rec.counters.get('violations', 0) < 5:
             ops = shrink(ops, path, kind)
-    rec.violation(kind, {'ops': [list(o) for o in ops], 'path': path, 'got': got, 'want': want}, known_key=key)
+            if len(ops) != len(w.ops):
+                wit['ops_before_shrinking'] = [list(o) for o in w.ops]
+    wit['ops'] = [list(o) for o in ops]
+    rec.violation(kind, wit, known_key=key)
     return key
 
 
@@ -333,14 +374,14 @@ def monitor_rejection_independent(rec, w, template, compile):
     except Exception:  # noqa
         return
     key = None
-    cand = {i for i, o in enumerate(ops) if o[0] == 'add' and o[3] != 'ok' and o[4]}
-    if cand:
-        w2 = rebuild(ops, skip=cand)
+    for k, idxs in candidates(ops):
+        w2 = ablate(ops, idxs)
         try:
             w2.router.add_route(template, Res('probe'), compile=compile)
-            key = K_ORPHAN
         except Exception:  # noqa
-            pass
+            continue
+        key = k
+        break
     rec.violation('rejected-only-because-of-an-earlier-rejected-add',
                   {'ops': [list(o) for o in ops], 'template': template}, known_key=key)
 
@@ -352,10 +393,10 @@ CONV_REPS = {
     ('int', None): ['7', 'x', '-3', ' 1', '007'],
     ('int', '2'): ['12', '1', '123', 'ab'],
     ('int', 'num_digits=2'): ['12', '1', '123', 'ab'],
-    ('int', 'min=5, max=10'): ['4', '5', '10', '11'],
-    ('int', '2, min=10, max=50'): ['10', '50', '51', '09'],
+    ('int', 'min=5, max=10'): ['5', '4', '10', '11'],
+    ('int', '2, min=10, max=50'): ['10', '09', '50', '51'],
     ('float', None): ['1.5', 'x', 'nan', '1e3'],
-    ('float', 'min=1.5, max=2.5'): ['1.4', '1.5', '2.5', '2.6'],
+    ('float', 'min=1.5, max=2.5'): ['1.5', '1.4', '2.5', '2.6'],
     ('float', 'finite=False'): ['nan', 'x', '-inf', '1.0'],
     ('uuid', None): [U1, U1[:-1], U1.replace('-', ''), 'x'],
     ('dt', None): ['2024-02-29T12:00:00Z', '2023-02-29T12:00:00Z', '2024-02-29T12:00:00+0100', 'x'],
@@ -500,6 +541,8 @@ def run_batch(rec, w, paths):
             rec.count('world.abandoned')
             return
         check_path(rec, w, p)
+    if w.crashed is not None:
+        w.dead = 'add_route(compile=True) raised ' + w.crashed
 
 
 def run_routeset(rec, templates, flags, every_step, cap, rng, intents=None, newline=False, lean=False):
@@ -517,9 +560,11 @@ def run_routeset(rec, templates, flags, every_step, cap, rng, intents=None, newl
         w.add(rec, t, compile=flags[j], intent=intents[j] if intents else None)
         if w.dead is not None:
             break
-        if every_step or j == len(templates) - 1:
+        if every_step or j == len(templates) - 1 or w.crashed is not None:
             run_batch(rec, w, paths)
             w.ops.append(['find', '/'])
+            if w.dead is not None:
+                break
     rec.count('routesets')
     if w.dead is None:
         try:
@@ -565,7 +610,9 @@ def templates_over(shapes):
 
 
 SPECIALS = ['/a/{p:path}/b', '/a/b/{p:path}x', '/a/{x1}/b', '/a/b/c', '/{x0}/{x1}/{p:path}',
-            '/{y0}-{w0}/{p:path}/c', '/a/{x1}/{r:rest}', '/ab/{z1:int(2)}/']
+            '/{y0}-{w0}/{p:path}/c', '/a/{x1}/{r:rest}', '/ab/{z1:int(2)}/',
+            '/{x0:int(min=5, max=10)}', '/{y0:int}.{w0}/{x1:float(min=1.5, max=2.5)}',
+            '/{y0:dt("%Y-%m-%d")}_{w0:uuid}_{u0}/{v1:veto}']
 
 PAIR_SHAPES = {
     'quick': ['a', 'ab', 'x', 'xint', 'ay', 'y-w', 'path', 'pathx'],
@@ -593,6 +640,8 @@ def exhaustive(rec):
         flags = [bool((r >> j) & 1) for j in range(len(templates))]
         every = bool((r >> len(templates)) & 1) or len(templates) == 1
         ok = run_routeset(rec, templates, flags, every, cap, rng, lean=lean)
+        if not ok:
+            rec.count('exhaustive.routesets-cut-short')     # sampled, or stopped by a recorded finding
         all_complete = all_complete and ok
 
     T2 = templates_over(PAIR_SHAPES[tier])
@@ -687,7 +736,7 @@ class Gen:
             base = M.split_template(rng.choice(accepted))
             if base and (':path' in base[-1] or ':rest' in base[-1]):
                 base = base[:-1]
-            segs = base[:rng.randint(0, len(base))]
+            segs = base[:rng.randint(0, min(len(base), 4))]
         depth = rng.randint(max(1, len(segs)), 5) if rng.random() < 0.8 else len(segs) + 1
         depth = max(depth, len(segs) + (0 if segs and rng.random() < 0.15 else 1))
         depth = min(depth, 5)
@@ -770,6 +819,10 @@ class Gen:
         return '/' + '/'.join(segs), kind
 
 
+NOISE_SEGS = ['é', '%2F', 'a' * 300, '\x00', ' ', '.', '..', '-', 'q-r-s', '1.5.x', '{x}', "'", '\\', '7' * 5000, '٣',
+              'q\rx', '\u2028']
+
+
 def history_paths(rng, attempted, n, newline):
     levels = level_reps(attempted, newline)
     out = []
@@ -783,7 +836,9 @@ def history_paths(rng, attempted, n, newline):
                 segs[i] = rng.choice(levels[min(i, len(levels) - 1)])
             elif r < 0.35:
                 segs.append(rng.choice(['', 'zz', 'a', 'no', 'p/q']))
-            elif r < 0.45 and len(segs) > 1:
+            elif r < 0.42:
+                segs[rng.randrange(len(segs))] = rng.choice(NOISE_SEGS)
+            elif r < 0.5 and len(segs) > 1:
                 segs.pop()
             if segs[0] == '' and len(segs) > 1:
                 segs[0] = 'zz'
@@ -822,7 +877,7 @@ def random_history(rec, rng):
             break
         if out == 'ok':
             accepted.append(t)
-        if lookups_every or rng.random() < 0.3 or step == n_adds - 1:
+        if lookups_every or rng.random() < 0.3 or step == n_adds - 1 or w.crashed is not None:
             run_batch(rec, w, history_paths(rng, attempted, 60 if step < n_adds - 1 else 160, newline))
             w.ops.append(['find', '/'])
             if out != 'ok':
